@@ -1,8 +1,436 @@
 package main
 
-import "verifharness/vf"
+// Part (b): black-box differential. The same generated data and queries go to a
+// ts-server with ptnum-pernode=1 and to one with ptnum-pernode=N (3 or 4). Answers must
+// be equal, and on the N-partition server every query is run a second time with the
+// product's own switch /debug/ctrl?mod=force_broadcast_query&enabled=1, which bypasses
+// shard-key pruning: pruned and broadcast answers must be equal.
 
-type BBWitness struct{}
+import (
+	"fmt"
+	"io"
+	"math/rand/v2"
+	"net/url"
+	"sort"
+	"strings"
+	"sync"
+	"time"
 
-func blackbox(c *vf.Ctx)                        {}
-func replayBlackbox(c *vf.Ctx, w *BBWitness)    {}
+	"verifharness/proc"
+	"verifharness/vf"
+)
+
+// BBStep is one step of the black-box workload, applied to both servers in order.
+type BBStep struct {
+	Stmt  string `json:"stmt,omitempty"`  // a statement for /query (POST)
+	Lines string `json:"lines,omitempty"` // line protocol for /write
+}
+
+type BBQuery struct {
+	Text  string `json:"q"`
+	Class string `json:"class"`
+	Prune bool   `json:"has_shard_key_equality"`
+}
+
+// BBWitness is a complete, replayable black-box case.
+type BBWitness struct {
+	PtN     int            `json:"ptnum_pernode"`
+	Steps   []BBStep       `json:"steps"`
+	Expect  map[string]int `json:"expected_points_per_measurement"`
+	Queries []BBQuery      `json:"queries"`
+}
+
+const bbDB = "db0"
+
+func genBlackbox(r *rand.Rand, nQueries int) *BBWitness {
+	w := &BBWitness{PtN: 3 + r.IntN(2), Expect: map[string]int{}}
+	type mdef struct {
+		name  string
+		key   []string
+		tags  []string
+		extra string
+	}
+	msts := []mdef{
+		{"m0", []string{"host"}, []string{"host", "region"}, " WITH SHARDKEY host"},
+		{"m1", []string{"host", "region"}, []string{"az", "host", "region"}, " WITH SHARDKEY host,region"},
+		{"m2", nil, []string{"host", "x"}, ""},
+		{"m3", []string{"host"}, []string{"host", "x"}, " WITH SHARDKEY host SHARDS 2"},
+		{"m4", []string{"host"}, []string{"host", "region"}, " WITH SHARDKEY host"}, // altered to region between the phases
+	}
+	w.Steps = append(w.Steps, BBStep{Stmt: "CREATE DATABASE " + bbDB + " WITH REPLICATION 1 SHARD DURATION 1h NAME rp0"})
+	for _, m := range msts {
+		if m.name == "m2" {
+			continue // created by the first write, no shard key
+		}
+		w.Steps = append(w.Steps, BBStep{Stmt: "CREATE MEASUREMENT " + m.name + m.extra})
+	}
+	dur := int64(time.Hour)
+	base := time.Date(2023, 6, 1, 0, 0, 0, 0, time.UTC).Add(time.Duration(r.IntN(500)) * time.Hour).UnixNano()
+	nHosts := 6 + r.IntN(4)
+	dom := map[string][]string{"host": tagDomain["host"][:nHosts], "region": tagDomain["region"][:3], "az": tagDomain["az"], "x": tagDomain["x"]}
+	seen := map[string]bool{}
+	id := int64(0)
+	phaseLines := [2][]string{}
+	for _, m := range msts {
+		n := 40 + r.IntN(20)
+		for i := 0; i < n; i++ {
+			id++
+			slot := r.IntN(4)
+			var t int64
+			switch r.IntN(5) {
+			case 0:
+				t = base + int64(slot)*dur
+			case 1:
+				t = base + int64(slot+1)*dur - 1
+			case 2:
+				t = base + int64(slot)*dur + 1
+			default:
+				t = base + int64(slot)*dur + r.Int64N(dur)
+			}
+			p := Point{ID: id, Mst: m.name, Tags: map[string]string{}, Usage: float64(r.IntN(17)) / 2, Cnt: int64(r.IntN(8)), Status: statusVals[r.IntN(3)], T: I64(t)}
+			for _, k := range m.tags {
+				isKey := contains(m.key, k) || (m.name == "m4" && k == "region")
+				if !isKey && r.IntN(100) < 10 {
+					continue
+				}
+				p.Tags[k] = dom[k][r.IntN(len(dom[k]))]
+			}
+			// (series, time) must be unique: a second point with the same key would overwrite the first
+			for {
+				k := p.Line(tagPool)
+				k = k[:strings.Index(k, " ")] + fmt.Sprint(p.T)
+				if !seen[k] {
+					seen[k] = true
+					break
+				}
+				p.T += 2
+			}
+			ph := 0
+			if slot >= 2 || (m.name == "m4" && r.IntN(6) == 0) {
+				ph = 1
+			}
+			phaseLines[ph] = append(phaseLines[ph], p.Line(tagPool))
+			w.Expect[m.name]++
+		}
+	}
+	r.Shuffle(len(phaseLines[0]), func(i, j int) { phaseLines[0][i], phaseLines[0][j] = phaseLines[0][j], phaseLines[0][i] })
+	r.Shuffle(len(phaseLines[1]), func(i, j int) { phaseLines[1][i], phaseLines[1][j] = phaseLines[1][j], phaseLines[1][i] })
+	chunk := func(lines []string) {
+		for len(lines) > 0 {
+			n := 25 + r.IntN(40)
+			if n > len(lines) {
+				n = len(lines)
+			}
+			w.Steps = append(w.Steps, BBStep{Lines: strings.Join(lines[:n], "\n")})
+			lines = lines[n:]
+		}
+	}
+	chunk(phaseLines[0])
+	w.Steps = append(w.Steps, BBStep{Stmt: "ALTER MEASUREMENT m4 WITH SHARDKEY region"})
+	chunk(phaseLines[1])
+
+	pickTime := func() int64 {
+		b := base + int64(r.IntN(5))*dur
+		switch r.IntN(5) {
+		case 0:
+			return b
+		case 1:
+			return b - 1
+		case 2:
+			return b + 1
+		default:
+			return b + r.Int64N(dur)
+		}
+	}
+	for i := 0; i < nQueries; i++ {
+		m := msts[r.IntN(len(msts))]
+		key := map[string]bool{}
+		for _, k := range m.key {
+			key[k] = true
+		}
+		if m.name == "m4" {
+			key["region"] = true
+		}
+		g := &condGen{r: r, tagVals: map[string][]string{}, status: statusVals}
+		for _, k := range m.tags {
+			g.tagKeys = append(g.tagKeys, k)
+			if key[k] {
+				g.tagKeys = append(g.tagKeys, k, k)
+			}
+			g.tagVals[k] = append(append([]string{}, dom[k]...), "nosuch")
+		}
+		cond := g.gen(1 + r.IntN(5))
+		text := cond.String()
+		bare := r.IntN(100) < 25
+		if bare {
+			text = cond.Bare()
+		}
+		var parts []string
+		if r.IntN(100) < 45 {
+			parts = append(parts, fmt.Sprintf("time >= %d", pickTime()))
+		}
+		_, _, hasOr, _, _ := cond.Shape()
+		if len(parts) > 0 || r.IntN(3) == 0 {
+			if hasOr || r.IntN(4) == 0 {
+				text = "(" + text + ")"
+			}
+		}
+		parts = append(parts, text)
+		if r.IntN(100) < 45 {
+			parts = append(parts, fmt.Sprintf("time < %d", pickTime()))
+		}
+		from := m.name
+		class := "no-or"
+		if hasOr {
+			class = "or-of-tag-equalities"
+			if cond.orWithNonTagSide(key) {
+				class = "or-with-operand-lacking-shard-key-equality"
+			}
+		}
+		if m.name == "m4" {
+			class += "/altered-shard-key"
+		}
+		if r.IntN(100) < 8 {
+			from = "/^m[0-9]$/"
+			class += "/regex-source"
+		}
+		if bare {
+			class += "/unparenthesised"
+		}
+		sel := "SELECT id FROM " + from + " WHERE " + strings.Join(parts, " AND ") + " GROUP BY *"
+		if r.IntN(3) == 0 {
+			sel = "SELECT count(id), sum(id), min(id), max(id) FROM " + from + " WHERE " + strings.Join(parts, " AND ")
+		}
+		w.Queries = append(w.Queries, BBQuery{Text: sel, Class: class, Prune: cond.hasTagEq(key)})
+	}
+	return w
+}
+
+// answer is the normalised answer of one query: for raw selects the sorted list of
+// returned values per column, for aggregates the rows; errors are part of the answer.
+func answer(s *proc.Server, q string) string {
+	res, err := s.Query(bbDB, q, nil)
+	if err != nil {
+		if res == nil {
+			return "TRANSPORT-ERROR: " + err.Error()
+		}
+		return "ERROR: " + err.Error()
+	}
+	var vals []string
+	for _, st := range res.Results {
+		for _, se := range st.Series {
+			for _, row := range se.Values {
+				// column 0 is time; keep name so that measurements stay apart
+				vals = append(vals, fmt.Sprintf("%s:%v", se.Name, row[1:]))
+			}
+		}
+	}
+	sort.Strings(vals)
+	return strings.Join(vals, " ")
+}
+
+type bbServers struct {
+	one, many *proc.Server
+}
+
+func (b *bbServers) kill() {
+	if b.one != nil {
+		b.one.Kill()
+	}
+	if b.many != nil {
+		b.many.Kill()
+	}
+}
+
+func ctrl(s *proc.Server, params string) error {
+	resp, err := s.HTTP.Post(s.URL()+"/debug/ctrl?"+params, "text/plain", nil)
+	if err != nil {
+		return err
+	}
+	defer resp.Body.Close()
+	b, _ := io.ReadAll(resp.Body)
+	if resp.StatusCode/100 != 2 || !strings.Contains(string(b), "success") {
+		return fmt.Errorf("ctrl %s: %d %s", params, resp.StatusCode, b)
+	}
+	return nil
+}
+
+// startAndLoad starts both servers in parallel, applies the steps and waits until every
+// written point is visible to queries. Returns false (after reporting) if that failed.
+func startAndLoad(c *vf.Ctx, w *BBWitness, tag string) (*bbServers, bool) {
+	bin, err := proc.Build(c.RepoDir, c.Scratch, "ts-server", false)
+	if err != nil {
+		c.Broken("build ts-server: %v", err)
+		return nil, false
+	}
+	mk := func(i, pt int) *proc.Server {
+		return proc.New(proc.Config{Bin: bin, Dir: fmt.Sprintf("%s/bb-%s-%d", c.Scratch, tag, pt), IP: proc.IP(propNum, i), PtNum: pt})
+	}
+	b := &bbServers{one: mk(0, 1), many: mk(1, w.PtN)}
+	var wg sync.WaitGroup
+	errs := make([]error, 2)
+	for i, s := range []*proc.Server{b.one, b.many} {
+		wg.Add(1)
+		go func(i int, s *proc.Server) {
+			defer wg.Done()
+			if err := s.Start(); err != nil {
+				errs[i] = err
+				return
+			}
+			if err := s.WaitReady(120 * time.Second); err != nil {
+				errs[i] = err
+				return
+			}
+			for si, st := range w.Steps {
+				if st.Stmt != "" {
+					if _, err := s.Query(bbDB, st.Stmt, nil); err != nil {
+						errs[i] = fmt.Errorf("step %d %q: %v", si, st.Stmt, err)
+						return
+					}
+					continue
+				}
+				wr := s.Write(bbDB, st.Lines, url.Values{"rp": {"rp0"}})
+				if !wr.Acked() {
+					errs[i] = fmt.Errorf("step %d write not acknowledged: %d %s %v", si, wr.Status, wr.Body, wr.Err)
+					return
+				}
+			}
+			// visibility rule: wait until every measurement shows all its points
+			deadline := time.Now().Add(60 * time.Second)
+			for {
+				missing := ""
+				for m, n := range w.Expect {
+					res, err := s.Query(bbDB, "SELECT count(id) FROM "+m, nil)
+					got := int64(0)
+					if err == nil && len(res.Results) > 0 && len(res.Results[0].Series) > 0 && len(res.Results[0].Series[0].Values) > 0 {
+						if jn, ok := res.Results[0].Series[0].Values[0][1].(interface{ Int64() (int64, error) }); ok {
+							got, _ = jn.Int64()
+						}
+					}
+					if got != int64(n) {
+						missing = fmt.Sprintf("%s: %d of %d", m, got, n)
+						break
+					}
+				}
+				if missing == "" {
+					return
+				}
+				if time.Now().After(deadline) {
+					errs[i] = fmt.Errorf("visibility watchdog: %s", missing)
+					return
+				}
+				time.Sleep(200 * time.Millisecond)
+			}
+		}(i, s)
+	}
+	wg.Wait()
+	for i, err := range errs {
+		if err == nil {
+			continue
+		}
+		b.kill()
+		if strings.HasPrefix(err.Error(), "visibility watchdog") {
+			// an unpruned count that never reaches the number of acknowledged points is judged
+			// by other properties (C02); here it only means nothing can be compared
+			c.Inconclusive("blackbox-points-never-all-visible", 1)
+			fmt.Printf("INCONCLUSIVE property=C11 black-box server %d: %v\n", i, err)
+		} else {
+			c.Broken("black-box server %d: %v", i, err)
+		}
+		return nil, false
+	}
+	return b, true
+}
+
+func runBlackboxQueries(c *vf.Ctx, w *BBWitness, b *bbServers) {
+	n := len(w.Queries)
+	one := make([]string, n)
+	pruned := make([]string, n)
+	bcast := make([]string, n)
+	var wg sync.WaitGroup
+	wg.Add(1)
+	go func() {
+		defer wg.Done()
+		for i, q := range w.Queries {
+			one[i] = answer(b.one, q.Text)
+		}
+	}()
+	for i, q := range w.Queries {
+		pruned[i] = answer(b.many, q.Text)
+	}
+	if err := ctrl(b.many, "mod=force_broadcast_query&enabled=1"); err != nil {
+		c.Broken("force_broadcast_query: %v", err)
+		wg.Wait()
+		return
+	}
+	for i, q := range w.Queries {
+		bcast[i] = answer(b.many, q.Text)
+	}
+	_ = ctrl(b.many, "mod=force_broadcast_query&enabled=0")
+	wg.Wait()
+	catReporter{c}.Distinct("blackbox", "pruned-vs-broadcast")
+	for i, q := range w.Queries {
+		c.Eval(1)
+		c.Count("blackbox-queries", 1)
+		c.Distinct("blackbox-query-class", q.Class)
+		if strings.HasPrefix(bcast[i], "TRANSPORT-ERROR") || strings.HasPrefix(pruned[i], "TRANSPORT-ERROR") || strings.HasPrefix(one[i], "TRANSPORT-ERROR") {
+			c.Inconclusive("blackbox-transport-error", 1)
+			continue
+		}
+		if strings.HasPrefix(bcast[i], "ERROR") {
+			c.Count("blackbox-queries-answered-with-error", 1)
+		}
+		wit := func() any {
+			x := *w
+			x.Queries = []BBQuery{q}
+			return map[string]any{"blackbox": x, "answer_1pt": trunc(one[i]), "answer_Npt_pruned": trunc(pruned[i]), "answer_Npt_broadcast": trunc(bcast[i])}
+		}
+		if pruned[i] != bcast[i] {
+			c.Violation("blackbox:pruned-answer-differs-from-broadcast/"+q.Class,
+				fmt.Sprintf("ptnum-pernode=%d: %s\n   pruned:    %s\n   broadcast: %s", w.PtN, q.Text, trunc(pruned[i]), trunc(bcast[i])), wit())
+		} else if one[i] != pruned[i] {
+			c.Violation("blackbox:answer-depends-on-partition-count/"+q.Class,
+				fmt.Sprintf("%s\n   ptnum-pernode=1: %s\n   ptnum-pernode=%d: %s", q.Text, trunc(one[i]), w.PtN, trunc(pruned[i])), wit())
+		}
+		if q.Prune && bcast[i] != "" && !strings.HasPrefix(bcast[i], "ERROR") {
+			c.Nontrivial("bb/" + q.Text)
+			c.Count("blackbox-queries-nontrivial", 1)
+		}
+	}
+}
+
+func trunc(s string) string {
+	if len(s) > 400 {
+		return s[:400] + fmt.Sprintf("… (%d bytes)", len(s))
+	}
+	return s
+}
+
+func blackbox(c *vf.Ctx) {
+	r := c.Rand(7)
+	w := genBlackbox(r, c.Pick(150, 1500))
+	b, ok := startAndLoad(c, w, "main")
+	if !ok {
+		return
+	}
+	defer b.kill()
+	total := 0
+	for _, n := range w.Expect {
+		total += n
+	}
+	c.Count("blackbox-points-written", int64(total))
+	c.Extra("blackbox-ptnum-pernode", []int{1, w.PtN})
+	c.Sample(map[string]any{"part": "blackbox", "ptnum_pernode": w.PtN, "setup": []string{w.Steps[0].Stmt, w.Steps[1].Stmt, w.Steps[2].Stmt},
+		"queries": []string{w.Queries[0].Text, w.Queries[1].Text, w.Queries[2].Text}})
+	runBlackboxQueries(c, w, b)
+}
+
+func replayBlackbox(c *vf.Ctx, w *BBWitness) {
+	b, ok := startAndLoad(c, w, "replay")
+	if !ok {
+		return
+	}
+	defer b.kill()
+	runBlackboxQueries(c, w, b)
+	fmt.Printf("REPLAY property=C11 black-box case: violations=%d\n", c.Violations())
+}
